@@ -959,27 +959,41 @@ func (m *Monitors) podDeleted(c *Call, p *corev1.Pod) {
 // regressedTaskView reports whether the reconcile t works with a copy of some task of Job j (as the API has
 // it now) that is older than the terminal state the Job's status already records for that task.
 func (m *Monitors) regressedTaskView(t *Task, j *execution.Job) bool {
-	if m.w.Inc == nil {
-		return false
-	}
 	for _, ref := range j.Status.Tasks {
-		if ref.Status.State != execution.TaskTerminated {
+		lost := ref.Status.State == execution.TaskDeletedFinalStateUnknown
+		if ref.Status.State != execution.TaskTerminated && !lost {
 			continue
 		}
-		cp, _ := viewPod(t, j.Namespace, ref.Name)
-		if cp == nil {
-			if o, ok, _ := m.w.Inc.Ctx.Inf.Pod.Raw().GetByKey(j.Namespace + "/" + ref.Name); ok {
-				cp = o.(*corev1.Pod)
-			}
-		}
-		if cp == nil || cp.Status.Phase == corev1.PodSucceeded || cp.Status.Phase == corev1.PodFailed {
-			continue
-		}
-		if cur, _ := m.w.API.peek(KPod)[key(j.Namespace, ref.Name)].(*corev1.Pod); cur == nil || cur.ResourceVersion != cp.ResourceVersion {
+		if cp := m.olderPodCopy(t, j.Namespace, ref.Name); cp != nil && (lost || !podTerminal(cp)) {
 			return true
 		}
 	}
 	return false
+}
+
+func podTerminal(p *corev1.Pod) bool {
+	return p.Status.Phase == corev1.PodSucceeded || p.Status.Phase == corev1.PodFailed
+}
+
+// olderPodCopy returns the copy of Pod ns/name the reconcile t read (else the one its process's cache holds) if it
+// is not what the API holds now: the Pod is gone there, or has a different resourceVersion.
+func (m *Monitors) olderPodCopy(t *Task, ns, name string) *corev1.Pod {
+	if m.w.Inc == nil {
+		return nil
+	}
+	cp, _ := viewPod(t, ns, name)
+	if cp == nil {
+		if o, ok, _ := m.w.Inc.Ctx.Inf.Pod.Raw().GetByKey(ns + "/" + name); ok {
+			cp = o.(*corev1.Pod)
+		}
+	}
+	if cp == nil {
+		return nil
+	}
+	if cur, _ := m.w.API.peek(KPod)[key(ns, name)].(*corev1.Pod); cur == nil || cur.ResourceVersion != cp.ResourceVersion {
+		return cp
+	}
+	return nil
 }
 
 func tsString(t *metav1.Time) string {
@@ -1127,30 +1141,19 @@ func (m *Monitors) onJob(ev *Event) {
 			}
 		}
 		for _, ot := range old.Status.Tasks {
-			if ot.Status.State != execution.TaskTerminated {
+			lost := ot.Status.State == execution.TaskDeletedFinalStateUnknown
+			if ot.Status.State != execution.TaskTerminated && !lost {
 				continue
 			}
 			for _, nt := range j.Status.Tasks {
-				if nt.Name != ot.Name || nt.Status.State == execution.TaskTerminated || nt.Status.State == execution.TaskDeletedFinalStateUnknown {
+				if nt.Name != ot.Name || nt.Status.State == ot.Status.State || (!lost && nt.Status.State == execution.TaskDeletedFinalStateUnknown) {
 					continue
 				}
 				sig := "task-status-regressed"
-				if m.w.Inc != nil {
-					// the copy of the Pod this reconcile read (else: what its cache holds now)
-					cp, _ := viewPod(m.w.current, j.Namespace, nt.Name)
-					if cp == nil {
-						if o, ok, _ := m.w.Inc.Ctx.Inf.Pod.Raw().GetByKey(j.Namespace + "/" + nt.Name); ok {
-							cp = o.(*corev1.Pod)
-						}
-					}
-					if cp != nil {
-						cur, _ := m.w.API.peek(KPod)[key(j.Namespace, nt.Name)].(*corev1.Pod)
-						if cp.Status.Phase != corev1.PodSucceeded && cp.Status.Phase != corev1.PodFailed && (cur == nil || cur.ResourceVersion != cp.ResourceVersion) {
-							// the controller's Pod cache holds a version of the task that is older than the one the
-							// recorded terminal state came from (a live read, or a previous process)
-							sig += ":pod-cache-behind-status"
-						}
-					}
+				if cp := m.olderPodCopy(m.w.current, j.Namespace, nt.Name); cp != nil && (lost || !podTerminal(cp)) {
+					// the sync works with a copy of the task's Pod that is older than what the recorded state came
+					// from (a live read, or a previous process): a lagging Pod cache
+					sig += ":pod-cache-behind-status"
 				}
 				m.fail("C11", sig, "Job %s: task %s was recorded as %s/%s and is now recorded as %s (writer %s)", j.Name, nt.Name, ot.Status.State, ot.Status.Result, nt.Status.State, ev.Actor)
 			}
